@@ -82,3 +82,5 @@ MANIFEST = {
              "modelled. Found and fixed while building this check: D23 (a custom caller lowered the counter per task: 40 tasks at once with bound 4).",
         design="4/C19, Appendix F, P"),
 }
+
+READY = True
